@@ -42,6 +42,35 @@ CLAIMED.update({
    text="Every acknowledged-flush image of a BFS over key lengths {1,255,256,max recoverable}, 1-3 block values, extreme timestamps and expiries on v1/v2/v3 devices is decoded by layoutref (own CRC32C, token fold, marker/journal/metadata layout, newest-timestamp-wins) and must contain exactly the live keys, a clear journal, valid metadata copies with counters equal to the live totals, verifying tokens (v3) or zero tokens (v1/v2). Conversely golden v3 files written by the pinned commit and layoutref-encoded v1/v2 files (duplicates, markers, max keys) must open and read back key for key, and legacy devices must keep their record format when written to.",
    note="layoutref shares no code with the crate; golden/INDEX.json pins the corpus by hash.", ref="DESIGN.md §4.6, §5 C10"),
 })
+CLAIMED.update({
+ "C07": dict(cat="model_checking", technique="deviation-bounded exhaustive schedule exploration (controlled scheduler over real threads) + brute-force linearizability check",
+   text="About a thousand programs (all pairs of 1-2-op thread bodies on one shared key from four initial states, triples of single ops; memory-only and persistent with the flush worker and coordinator under control) are explored over every schedule within the deviation (preemption) bound at hook-point granularity. Every complete execution's invocation/response history plus the final state is checked by brute-force linearization against the LWW model, treating every call as explicitly timestamped with the timestamp the store reported, with exactly the two permitted refusals.",
+   note="Interleavings are sequentially consistent at hook granularity: a race window lying entirely between two adjacent hook points is invisible (see DESIGN §10). Bound 2 quick / 3 thorough.", ref="DESIGN.md §4.4, §5 C07"),
+ "C08": dict(cat="model_checking", technique="exhaustive schedule exploration with the flush worker controlled; linearizability oracle + device-write/pinned-extent monitor",
+   text="Reader (get, get_bytes, range, CAS, increment) vs overwrite/delete/TTL-rewrite, flush or coordinator tick, and a second key reusing the freed extent, on 3-6 block devices, cache on and off, 1- and 2-block values: every schedule within the bound. Read results are checked by linearization (StaleExtent only under a concurrent rewrite); an I/O monitor fails the run if any device write intersects an extent a reader has pinned and not yet released.",
+   note="Bound 1 quick / 2 thorough; worker, coordinator and application threads all under the scheduler.", ref="DESIGN.md §5 C08"),
+ "C09": dict(cat="fault_enumeration", technique="exhaustive enumeration of I/O answers per device call (1 and 2 deviations, permanent failure from each call) + crash-image check of every faulted history",
+   text="For five (seven thorough) workloads, every device call (each journal, data, marker and metadata write and each fsync) is answered fail-before, fail-after or short-write, singly, in every pair, and as permanent failure from that call on. After every call reads must return the latest accepted values; every crash image of the faulted history must recover a state no older than the last acknowledged flush; after the device heals flush must succeed (or, after an indeterminate failure, succeed after reopening a copy).",
+   note="Faults on the synchronous write path (io_uring disabled); fsync failure model in evidence assumptions.", ref="DESIGN.md §4.3, §5 C09"),
+ "C14": dict(cat="model_checking", technique="complete small-scope enumeration of range queries + exhaustive schedule exploration of scans vs writers",
+   text="(1) Every subset of a 6-key universe (shared prefixes, NUL, 0xff) x every pair of 10 bounds x limits x six storage variants (memory, expired entries, disk cold/warm, v1) compared exactly with the model; (2) BFS suites with range symbols; (3) scans racing inserts/updates/deletes/flushes of neighbours under the controlled scheduler: ordering, bounds, limit, genuine values, stable keys neither missed nor duplicated, and index agreement at quiescence.",
+   note="Concurrent part at hook-point granularity (scanner yields at every visited entry).", ref="DESIGN.md §5 C14"),
+ "C15": dict(cat="exploration", technique="exhaustive synthesis of legacy images (item sequences) + crash images of real v1/v2 workloads, each migrated under every option combination; environment interference at every point of migrate()",
+   text="All sequences of up to 3 (4 thorough) items from 13 image building blocks (records, duplicates, expired winner, token and legacy markers, active journals incl. descending extents, max key) on v1 and v2, plus ~1200 distinct crash images of real legacy workloads, each migrated with opt-in off/on and with a pre-existing destination. Oracle: source bytes unchanged, no destination or temp file on failure, destination v3 with contents equal to a read-write recovery of a copy of the source (through the store and through the independent decoder), existing destination untouched. The source is also modified at each named point of migrate().",
+   note="Multi-batch paths (256-record scan batches, 4096-record flush threshold) are not enumerated.", ref="DESIGN.md §5 C15"),
+ "C17": dict(cat="exploration", technique="exhaustive structured corruption of small valid images, opened in isolated child processes",
+   text="~160k images: every bit of every structure head, boundary values in every 2/4/8-byte header window, every block swap/duplication/zeroing, size classes, and forged metadata/journal/record/marker structures with recomputed checksums or tokens, over eight base images (v1/v2/v3, markers, active journal, max key). No panic, abort, hang; a rejection for size or missing/invalid metadata must leave the file byte-identical (reason established independently of the error code); an opened store must answer a fixed probe.",
+   note="Random byte patterns are not sampled.", ref="DESIGN.md §5 C17"),
+ "C18": dict(cat="model_checking", technique="exhaustive schedule exploration with visible locks and waits; deadlock = no enabled thread, livelock = decision horizon",
+   text="Contention programs (concurrent flush callers, flush vs tick, full device, reader held inside a read, failing writes / fsyncs / one failing batch, two workers on two shards) are explored over every schedule within the bound with every lock that is held across a hook made visible (disk, free-space, retirement queue, metadata) so that a lock-order inversion shows up as 'no thread can run'. Every call in every other engine runs under a watchdog as well.",
+   note="Bound 1 quick / 2 thorough.", ref="DESIGN.md §5 C18"),
+ "C19": dict(cat="model_checking", technique="complete matrix of worker counts x shards x neighbour states x write kinds with coordinator rounds as explicit steps + schedule exploration of writers racing a round",
+   text="For every worker count 1..8, every shard, idle/busy neighbours and insert/overwrite/delete/sweep/failed-batch/1100-entry burst: the write is performed, flush() is never called, coordinator rounds are granted one at a time and after at most 2 (3 after a failed batch) the image rebuilt from synced device writes must recover the write, nothing may remain queued and the superseded extent must be released. Writers racing a coordinator round are explored under the controlled scheduler with the same oracle.",
+   note="The real-time constant is not measured: rounds are counted.", ref="DESIGN.md §5 C19"),
+ "C20": dict(cat="model_checking", technique="the SEQ/SCHED/FAULT enumerations re-executed under AddressSanitizer",
+   text="The sequence, schedule (bound 1 quick / 2 thorough) and single-fault enumerations are re-executed with feoxdb and the harness compiled with -Zsanitizer=address in child processes; any sanitizer report or abnormal exit is the violation and the program/schedule being explored the replay. The same thread bodies are also run without the controller (sampling supplement, reported separately).",
+   note="Kernel-side io_uring buffer lifetime and O_DIRECT paths are out of reach.", ref="DESIGN.md §5 C20"),
+})
 PENDING = {}
 props=[json.loads(l) for l in open('/verif/properties.jsonl')]
 checks=[]; na=[]
